@@ -3,7 +3,9 @@
   C19.SEL   abstract interpretation of fetch_next_with_fallback over {primary ok / errors} x
             {synchronised fallback sample present / absent} x {primary valid / invalid}: returns the
             primary iff it is valid or no fallback sample exists, the fallback otherwise, and the
-            fallback's next sample when the primary errors.
+            fallback's next sample when the primary errors.  What is returned is one of the received samples WHOLE: a sample
+            assembled in the function (`Sample(ts, value)`, `replace(..)`) counts as a received sample only if both parts
+            come from the same one -- the fallback's value under the primary's timestamp is neither.
   C19.ERR   every receive() on the primary or the fallback inside MetricFetcher sits in a try whose
             handler names a *catchable class* derived from ReceiverError (a subscripted generic such as
             `ReceiverError[Any]` is not a class: the except clause itself raises TypeError), except
@@ -14,7 +16,8 @@
   C19.SYNC  _synchronize_and_fetch_fallback (as one unit with its private helpers): everything read from the
             fallback stream is in _latest_fallback_sample before the routine can be left or await again;
             `primary older than fallback -> None` is tested on every call; the catch-up loop runs while the
-            primary is newer and advances only the fallback.  "The cached sample" is the attribute or a local
+            primary is newer and advances only the fallback; no other cycle contains a read of the fallback stream (how many
+            samples a round takes from it depends on the two timestamps only, never on a value being valid).  "The cached sample" is the attribute or a local
             that provably holds its current value (_c06_util.AliasStates), so a local mirror is read like the
             attribute -- and a mirror that is written back late is not.
   C19.ESYNC a sample read straight from the fallback stream is returned to the round only on paths that consult
@@ -29,7 +32,8 @@
             a meter's successors are its fallback == the device side of the (device, meter) pair table, and every
             pair is the one the component graph defines (`is_X_meter` == METER whose successors are all `is_X`).
             The pair table is obtained by executing the two-candidate predicate for every combination of
-            candidate kinds (PairInterp), whatever its spelling (and-chain, any() over a table, dict, helper).
+            candidate kinds (PairInterp), whatever its spelling (and-chain, any() over a table, dict, helper); the kinds
+            include a meter whose successors are of different kinds and the grid meter: neither is anybody's primary.
 
   C19.LOOP  the loop that drives a formula survives every failing round: each Exception-family edge out of
             `await evaluator.apply()` enters a handler that certainly catches it (Exception / BaseException / bare) and
@@ -86,6 +90,14 @@ class SelInterp(HelperCalls, Interp):
             return Obj("logger")
         if ident == "anext":
             return ("m", "anext", None)
+        if ident == "Sample":
+            return ("m", "Sample")
+        if ident == "replace":
+            return ("m", "replace")
+        if ident == "dataclasses":
+            return Obj("dataclasses")
+        if ident == "QuantityT":
+            return ident
         raise AnalysisError(f"name {ident} not modelled in C19.SEL")
 
     def get_attr(self, base: Any, attr: str, node: ast.AST) -> Any:
@@ -100,6 +112,13 @@ class SelInterp(HelperCalls, Interp):
                 return ("m", VALID_HINT)
             if attr == "_name":
                 return "name"
+        if isinstance(base, Obj) and base.cls == "dataclasses" and attr == "replace":
+            return ("m", "replace")
+        if isinstance(base, Obj) and base.cls == "Sample" and attr in ("timestamp", "value"):
+            # the two parts of a sample remember which received sample they were taken from
+            if attr in base.fields:
+                return base.fields[attr]
+            return Obj("ts" if attr == "timestamp" else "v", of=base.fields.get("who"))
         if isinstance(base, Obj) and base.cls == "v" and attr in ("isnan", "isinf"):
             return ("m", "vprobe", attr, base)  # the validity test written in line on the received value
         if isinstance(base, Obj) and base.cls in ("stream", "fallback") and attr == "receive":
@@ -111,7 +130,7 @@ class SelInterp(HelperCalls, Interp):
         return super().get_attr(base, attr, node)
 
     def get_item(self, base: Any, key: Any, node: ast.AST) -> Any:
-        if base == "ReceiverError":
+        if base == "ReceiverError" or base == ("m", "Sample"):
             return base
         return super().get_item(base, key, node)
 
@@ -135,7 +154,7 @@ class SelInterp(HelperCalls, Interp):
                     if d == 2:
                         self.scn["primary_error"] = True
                         raise _Raise("StopAsyncIteration", node)
-                    return Obj("Sample", who="primary", value=Obj("v"))
+                    return Obj("Sample", who="primary", value=Obj("v", of="primary"))
                 self.scn["fallback_receives"] = self.scn.get("fallback_receives", 0) + 1
                 return Obj("Sample", who="fallback_next")
             if fn[1] == "receive":
@@ -145,9 +164,11 @@ class SelInterp(HelperCalls, Interp):
                     if self.choose(2, "primary receive raises ReceiverError") == 1:
                         self.scn["primary_error"] = True
                         raise _Raise("ReceiverError", node)
-                    return Obj("Sample", who="primary", value=Obj("v"))
+                    return Obj("Sample", who="primary", value=Obj("v", of="primary"))
                 self.scn["fallback_receives"] = self.scn.get("fallback_receives", 0) + 1
                 return Obj("Sample", who="fallback_next")
+            if fn[1] in ("Sample", "replace"):
+                return self._assembled(fn[1], pos, kw, node)
             if fn[1] == "_synchronize_and_fetch_fallback":
                 full = list(pos) + [kw[n] for n in self.sync_params[len(pos):] if n in kw]
                 self.scn["sync_args"] = [getattr(p, "cls", None) and p.fields.get("who", p.cls) for p in full]
@@ -170,6 +191,32 @@ class SelInterp(HelperCalls, Interp):
                     self.scn["enc"] = ("isnan", "isinf")[self.choose(2, "invalid primary value is NaN / infinite")]
                 return fn[2] == self.scn["enc"]
         return super().apply(fn, pos, kw, node)
+
+    def _assembled(self, how: str, pos: list[Any], kw: dict[str, Any], node: ast.AST) -> Any:
+        """`Sample(ts, value)` / `replace(sample, timestamp=.., value=..)`: a sample put together in the function.  When both
+        parts come from the same received sample it IS that sample (a copy); otherwise it is a mix, named by its parts."""
+        def part(x: Any) -> str:
+            if isinstance(x, Obj) and x.cls in ("ts", "v") and x.fields.get("of"):
+                return f"{x.fields['of']}.{'timestamp' if x.cls == 'ts' else 'value'}"
+            return "<something else>"
+
+        if how == "replace":
+            if not pos or not (isinstance(pos[0], Obj) and pos[0].cls == "Sample"):
+                raise AnalysisError(f"replace() of something that is not a sample in C19.SEL (line {getattr(node, 'lineno', '?')})")
+            base = pos[0]
+            ts = kw.get("timestamp", self.get_attr(base, "timestamp", node))
+            val = kw.get("value", self.get_attr(base, "value", node))
+        else:
+            args = dict(zip(("timestamp", "value"), pos))
+            args.update(kw)
+            if set(args) != {"timestamp", "value"}:
+                raise AnalysisError(f"Sample(..) without a timestamp and a value in C19.SEL (line {getattr(node, 'lineno', '?')})")
+            ts, val = args["timestamp"], args["value"]
+        src_t = ts.fields.get("of") if isinstance(ts, Obj) and ts.cls == "ts" else None
+        src_v = val.fields.get("of") if isinstance(val, Obj) and val.cls == "v" else None
+        if src_t is not None and src_t == src_v:
+            return Obj("Sample", who=src_t, timestamp=ts, value=val)
+        return Obj("Sample", who=f"Sample({part(ts)}, {part(val)})", timestamp=ts, value=val, mixed=True, node=node)
 
     def _valid(self) -> bool:
         if "valid" not in self.scn:
@@ -223,8 +270,17 @@ def check_sel(run: Run, prog: Program) -> None:
         else:
             want = "fallback"
             why = "the primary value is missing and a synchronised fallback sample exists"
+        mixed = isinstance(out.value, Obj) and bool(out.value.fields.get("mixed"))
         run.check(who == want, "C19.SEL", fn.qual, f"returns {who} [{desc}]",
-                  f"{why}, but `{who}` is returned ({desc})", node=fn.node, file=fn.file,
+                  f"{why}, but `{who}` is returned ({desc})"
+                  + (": a sample assembled from the timestamp of one source and the value of another is neither of the two received "
+                     "samples.  The term's value must be the other source's value *for the same timestamp*; the synchronisation only "
+                     "guarantees a fallback sample that is not older than the primary (a fallback stream with a gap delivers T+1 for "
+                     "the primary's T), and it is the sample's own timestamp by which the evaluator notices that and re-aligns.  "
+                     "Re-labelled, the value of another timestamp is emitted under T -- also when neither source had a valid value "
+                     "for T (the sample handed on must be one of the received samples whole: same for dataclasses.replace(), for a "
+                     "value averaged / summed from both, for the fallback's timestamp on the primary's value)" if mixed else ""),
+                  node=(out.value.fields.get("node") if mixed and out.value.fields.get("node") is not None else fn.node), file=fn.file,
                   instance=f"{fn.qual}: {desc} -> {want}")
         run.check(s.get("primary_receives", 0) == 1, "C19.SEL", fn.qual, "primary received once",
                   f"the primary stream is received {s.get('primary_receives', 0)} times in one round ({desc})",
@@ -237,7 +293,7 @@ def check_sel(run: Run, prog: Program) -> None:
                   node=fn.node, file=fn.file, instance=f"{fn.qual}: fallback consumed ({desc})")
         if "valid_arg" in s:
             va = s["valid_arg"]
-            run.check(isinstance(va, Obj) and va.cls == "v", "C19.SEL", fn.qual, "validity of the primary value",
+            run.check(isinstance(va, Obj) and va.cls == "v" and va.fields.get("of", "primary") == "primary", "C19.SEL", fn.qual, "validity of the primary value",
                       "validity is not judged on the primary sample's value", node=fn.node, file=fn.file,
                       instance=f"{fn.qual}: validity judged on primary.value ({desc})")
         if "sync_args" in s:
@@ -732,7 +788,35 @@ def check_sync(run: Run, prog: Program, rule: str = "C19.SYNC") -> None:
     if not ok:
         return
     t, w = older[0], loops[0]
-    rets_val = [n.id for n in cfg.nodes if isinstance(n.ast, ast.Return) and n.kind == "stmt" and n.id in fl.live
+    # the fallback stream is read repeatedly only by the catch-up loop, i.e. only while the timestamp comparison says the
+    # cached sample is older than the primary: no other cycle (a `while not valid(..)`, a `while True` with a break on the
+    # sample's value, a retry loop) contains a read of the fallback
+    spin = None
+    for sflow, r, _c in sites:
+        scfg = sflow.cfg
+        cyc = scfg.path(r, [r], include_src=False, avoid=([w.id] if sflow is fl else []))
+        if cyc is not None:
+            spin = spin or (sflow, r, cyc)
+    for r in recv:
+        cyc = cfg.path(r, [r], include_src=False, avoid=[w.id])
+        if cyc is not None:
+            spin = spin or (fl, r, cyc)
+    heads = []
+    if spin is not None:
+        heads = [spin[0].cfg.nodes[n_] for n_, _l in spin[2] if spin[0].cfg.nodes[n_].kind in ("while", "for")]
+    head_txt = (u(heads[0].ast.test) if heads and heads[0].kind == "while" else "")  # type: ignore[union-attr]
+    run.check(spin is None, rule, fn.qual, "the fallback is read repeatedly only while the primary is newer (timestamps only)",
+              (f"`{u(spin[0].cfg.nodes[spin[1]].ast)[:80]}` sits in a loop" + (f" (`while {head_txt[:80]}`)" if head_txt else "")
+               + " that is not the catch-up loop `while <primary>.timestamp > <cached fallback>.timestamp`: how many samples are taken from the "
+               "fallback stream in one round then depends on something other than the two timestamps (the sample's value being "
+               "valid, a retry count, ...).  Such a loop waits: while the fallback's samples are missing as well the fetch does not "
+               "return, the whole formula emits nothing -- also when the primary has recovered in the meantime and is perfectly "
+               "valid -- and it reads the fallback AHEAD of the primary, so that what it finally returns belongs to a later timestamp.  "
+               "The synchronisation may only compare timestamps; an invalid fallback sample of the right timestamp is the answer "
+               "for that timestamp (the term is then missing)") if spin is not None else "",
+              node=(spin[0].cfg.nodes[spin[1]].ast if spin is not None else fn.node), file=fn.file,
+              path=(spin[0].cfg.describe_path(spin[2]) if spin is not None else None))
+    rets_val =[n.id for n in cfg.nodes if isinstance(n.ast, ast.Return) and n.kind == "stmt" and n.id in fl.live
                 and n.ast.value is not None and alias.same(n.ast.value, n.id)]
     run.check(len(rets_val) == 1, rule, fn.qual, f"return {LATEST}", "the synchronised sample is not returned",
               node=fn.node, file=fn.file)
@@ -1097,16 +1181,57 @@ def graph_meter_table(prog: Program) -> tuple[dict[str, str], set[str]]:
     return table, preds
 
 
+MIXED_METER = "<a meter whose successors are not all of one kind>"
+GRID_METER = "is_grid_meter"
+
+
+def graph_kinds(prog: Program, table: dict[str, str], preds: set[str]) -> tuple[dict[str, set[str]], dict[str, str]]:
+    """({graph predicate: the candidate kinds it holds for}, {device kind: its ComponentCategory}) read off the concrete
+    component graph.  A candidate kind is named by the most specific graph predicate that holds for it: a device kind D
+    (`is_D`), a dedicated meter kind M (`is_M_meter`: METER, not the grid meter, all successors `is_D`), the grid meter,
+    MIXED_METER (category METER, none of the above) or None (any other component).  A predicate that is a disjunction of
+    other graph predicates (`is_X_chain` = `is_X or is_X_meter`) holds for the union of their kinds."""
+    holds: dict[str, set[str]] = {}
+    cats: dict[str, str] = {}
+    for p in preds:
+        if p in table or p in table.values() or p == GRID_METER:
+            holds[p] = {p}
+    for cls in prog.module(GRAPH_MOD).classes.values():
+        for m in cls.methods.values():
+            if m.name not in preds or any(u(d) == "abstractmethod" for d in m.node.decorator_list):
+                continue
+            if m.name in table.values():
+                for x in ast.walk(m.node):
+                    if isinstance(x, ast.Compare) and len(x.ops) == 1 and isinstance(x.ops[0], ast.Eq):
+                        for side in (x.left, x.comparators[0]):
+                            if u(side).startswith("ComponentCategory."):
+                                cats[m.name] = u(side)
+            if m.name in holds:
+                continue
+            rets = [r for r in body_walk(m.node) if isinstance(r, ast.Return) and r.value is not None]
+            if len(rets) == 1 and isinstance(rets[0].value, ast.BoolOp) and isinstance(rets[0].value.op, ast.Or):
+                parts = [v.func.attr for v in rets[0].value.values if isinstance(v, ast.Call) and isinstance(v.func, ast.Attribute)
+                         and u(v.func.value) == "self" and v.func.attr in holds and len(v.args) == 1]
+                if len(parts) == len(rets[0].value.values):
+                    holds[m.name] = set().union(*(holds[q] for q in parts))
+    return holds, cats
+
+
 class PairInterp(HelperCalls, Interp):
     """Executes the (device, meter) pairing predicate for ONE concrete pair of candidates: each candidate is a
-    component of one kind (named by the graph predicate that holds for it, or None for "anything else"); a graph
-    predicate applied to a candidate is true iff it is the candidate's kind.  The relation the function computes is
-    read off its results -- whether it is spelled as a chain of `d(f) and m(p)`, as `any()` over a table of predicate
-    pairs, as an if-chain or through private helpers makes no difference."""
+    component of one kind (graph_kinds: a device kind, a dedicated meter kind, the grid meter, a meter whose successors
+    are of different kinds, or None for "anything else"); a graph predicate applied to a candidate is true iff it holds
+    for the candidate's kind, and `<candidate>.category` is METER exactly for the meter kinds.  The relation the function
+    computes is read off its results -- whether it is spelled as a chain of `d(f) and m(p)`, as `any()` over a table of
+    predicate pairs, as an if-chain, through the category or through private helpers makes no difference."""
 
-    def __init__(self, preds: set[str]) -> None:
+    def __init__(self, preds: set[str], holds: dict[str, set[str]] | None = None, cats: dict[str, str] | None = None,
+                 meter_kinds: set[str] | None = None) -> None:
         super().__init__()
         self.preds = preds
+        self.holds = holds if holds is not None else {p: {p} for p in preds}
+        self.cats = cats or {}
+        self.meter_kinds = meter_kinds or set()
 
     def unknown_name(self, ident: str, node: ast.AST) -> Any:
         if ident in ("any", "all", "bool", "len", "tuple", "list", "iter", "next"):
@@ -1119,6 +1244,13 @@ class PairInterp(HelperCalls, Interp):
     def get_attr(self, base: Any, attr: str, node: ast.AST) -> Any:
         if isinstance(base, Obj) and base.cls != "cand" and attr in self.preds:
             return ("pred", attr)
+        if isinstance(base, Obj) and base.cls == "<ComponentCategory>":
+            return f"ComponentCategory.{attr}"
+        if isinstance(base, Obj) and base.cls == "cand" and attr == "category":
+            k = base.fields["kind"]
+            if k in self.meter_kinds:
+                return "ComponentCategory.METER"
+            return self.cats.get(k, f"ComponentCategory.<of {k}>")
         if isinstance(base, Obj) and base.cls not in ("self", "cand") and attr not in base.fields:
             return Obj(f"{base.cls}.{attr}")
         return super().get_attr(base, attr, node)
@@ -1128,13 +1260,16 @@ class PairInterp(HelperCalls, Interp):
             args = list(pos) + list(kw.values())
             if len(args) != 1 or not (isinstance(args[0], Obj) and args[0].cls == "cand"):
                 raise AnalysisError(f"graph predicate {fn[1]} applied to something other than a candidate (line {getattr(node, 'lineno', '?')})")
-            return args[0].fields["kind"] == fn[1]
+            if fn[1] not in self.holds:
+                raise AnalysisError(f"graph predicate {fn[1]}: not known for which component kinds it holds (line {getattr(node, 'lineno', '?')})")
+            return args[0].fields["kind"] in self.holds[fn[1]]
         if isinstance(fn, Obj) and fn.cls not in ("self", "cand"):
             return Obj(f"{fn.cls}()")
         return super().apply(fn, pos, kw, node)
 
 
-def pair_relation(prog: Program, fn: Any, kinds: list[str | None], preds: set[str]) -> set[tuple[str | None, str | None]]:
+def pair_relation(prog: Program, fn: Any, kinds: list[str | None], preds: set[str], holds: dict[str, set[str]] | None = None,
+                  cats: dict[str, str] | None = None, meter_kinds: set[str] | None = None) -> set[tuple[str | None, str | None]]:
     """{(kind of the 1st candidate, kind of the 2nd)} for which the two-candidate predicate `fn` answers True."""
     ps = [p for p in fn.params if p != "self"]
     if len(ps) != 2:
@@ -1142,7 +1277,7 @@ def pair_relation(prog: Program, fn: Any, kinds: list[str | None], preds: set[st
     rel: set[tuple[str | None, str | None]] = set()
     for k0 in kinds:
         for k1 in kinds:
-            it = PairInterp(preds)
+            it = PairInterp(preds, holds, cats, meter_kinds)
             it.bind_helpers(prog, fn)
             outs = it.explore(fn.node, lambda: {"self": Obj("self"), ps[0]: Obj("cand", kind=k0), ps[1]: Obj("cand", kind=k1)})
             if len(outs) != 1 or outs[0].kind != "return" or not isinstance(outs[0].value, bool):
@@ -1174,27 +1309,42 @@ def pairing_sites(prog: Program) -> tuple[Any, list[tuple[str, str, ast.AST]], A
     cls = prog.cls(FG)
     pair_fn, pairs = None, []
     hits: list[tuple[Any, list[tuple[str, str, ast.AST]], list[Any]]] = []
+    loose_of: dict[str, list[tuple[str, str | None]]] = {}
     for m in cls.methods.values():
         # the predicate may hand part of its work to private helpers (`_meter_kind_of(device)`): what it refers to is
         # what it and the helpers it reaches refer to
         reach = [f for f in _self_callees(prog, cls, m) if f is m or (f.name.startswith("_") and not f.name.startswith("__"))]
         refs = {x.attr for f in reach for x in ast.walk(f.node) if isinstance(x, ast.Attribute) and isinstance(x.ctx, ast.Load) and x.attr in preds}
-        if not (refs & set(table)) or not (refs - set(table) - {"is_grid_meter"}) or len([p_ for p_ in m.params if p_ != "self"]) != 2:
+        # a two-candidate predicate over graph predicates of either side (it may recognise the meter side through the
+        # component category instead of an `is_X_meter` predicate)
+        if not (refs & (set(table) | set(table.values()))) or len([p_ for p_ in m.params if p_ != "self"]) != 2:
             continue
         found: list[tuple[str, str, ast.AST]] = []
+        loose_m: list[tuple[str, str | None]] = []
         try:
-            kinds: list[str | None] = sorted(p for p in preds if p in table or p in table.values()) + [None]
-            rel = pair_relation(prog, m, kinds, preds)
+            holds, cats = graph_kinds(prog, table, preds)
+            meter_kinds = set(table) | {GRID_METER, MIXED_METER}
+            kinds: list[str | None] = sorted(table) + sorted(set(table.values())) + [GRID_METER, MIXED_METER, None]
+            rel = pair_relation(prog, m, kinds, preds, holds, cats, meter_kinds)
             if not rel:
                 raise AnalysisError(f"{m.qual}: the pairing predicate is never true")
-            fwd = all(a in table for a, _b in rel)      # (meter, device): the primary candidate comes first
-            bwd = all(b in table for _a, b in rel)
-            if fwd == bwd or any(a is None or b is None for a, b in rel):
+            fwd = all(a in meter_kinds for a, _b in rel)      # (meter, device): the primary candidate comes first
+            bwd = all(b in meter_kinds for _a, b in rel)
+            if fwd == bwd:
                 raise AnalysisError(f"{m.qual}: the pairs do not test one fallback candidate and one primary candidate")
-            for a, b in sorted(rel, key=repr):
-                mt, dv = (a, b) if fwd else (b, a)
+            norm = sorted({((a, b) if fwd else (b, a)) for a, b in rel}, key=repr)
+            # a meter that is not dedicated to one device kind (or the grid meter) accepted as somebody's primary
+            loose_m = [(str(mt), dv) for mt, dv in norm if mt not in table]
+            any_meter = {dv for mt, dv in loose_m if mt == MIXED_METER}
+            for mt, dv in norm:
+                if mt not in table or dv not in table.values():
+                    continue  # (M, anything but M's own device kind behind it) cannot occur: all successors of M are of its kind
+                if dv in any_meter and table.get(str(mt)) != dv:
+                    continue  # a consequence of "any meter": reported once, as that
                 node = next((x for f in reach for x in ast.walk(f.node) if isinstance(x, ast.Attribute) and x.attr == mt), m.node)
                 found.append((str(dv), str(mt), node))
+            if not found and loose_m:
+                found = [(str(dv), str(mt), m.node) for mt, dv in norm if mt in table and dv in table.values()]
         except AnalysisError:
             syn = _syntactic_pairs(m, preds, table)
             if not syn:
@@ -1204,12 +1354,14 @@ def pairing_sites(prog: Program) -> tuple[Any, list[tuple[str, str, ast.AST]], A
             found = [(a, b_, n) for a, b_, n, _d, _p in syn]
         if found:
             hits.append((m, found, reach))
+            loose_of[m.name] = loose_m
     # a two-candidate wrapper around the predicate computes the same relation: the outermost one is the one in use
     outer = [h for h in hits if not any(h[0] is not g[0] and h[0] in g[2] for g in hits)]
     if len(outer) > 1:
         raise AnalysisError(f"{cls.qual}: two methods pair devices with meters ({outer[0][0].name}, {outer[1][0].name})")
     if outer:
         pair_fn, pairs = outer[0][0], outer[0][1]
+        prog._c19_loose_pairs = loose_of.get(pair_fn.name, [])  # type: ignore[attr-defined]
     if pair_fn is None:
         raise AnalysisError(f"{cls.qual}: no method pairs a device predicate with a meter predicate")
     meter_fn, applied = None, {}
@@ -1242,6 +1394,27 @@ def check_pair(run: Run, prog: Program) -> None:
                   f"`{d}` components are paired with `{m}` as their primary, but the component graph defines `{m}` as the METER whose "
                   f"successors are all `{table.get(m)}`: the fallback of that meter's term would be components the meter does not measure",
                   node=node, file=pair_fn.file, instance=f"{pair_fn.qual}: ({d}, {m}) is the graph's pair")
+    # ... and a meter is somebody's primary only if it is dedicated to that kind: the pairing predicate, executed for a meter
+    # whose successors are of different kinds (and for the grid meter), answers False whatever the other candidate is
+    loose: list[tuple[str, str | None]] = getattr(prog, "_c19_loose_pairs", [])
+    any_m = sorted({str(dv) for mt, dv in loose if mt == MIXED_METER})
+    grid_m = sorted({str(dv) for mt, dv in loose if mt == GRID_METER})
+    ret = next((r for r in ast.walk(pair_fn.node) if isinstance(r, ast.Return) and r.value is not None
+                and not isinstance(r.value, ast.Constant)), pair_fn.node)
+    run.check(not loose, "C19.PAIR", pair_fn.qual, "a meter is the primary of a device kind only if it is dedicated to that kind",
+              f"{pair_fn.name}() accepts "
+              + (f"ANY meter -- also one whose successors are of different kinds -- as the primary measuring point of {any_m} components" if any_m else "")
+              + (" and " if any_m and grid_m else "")
+              + (f"the grid meter as the primary of {grid_m} components" if grid_m else "")
+              + f", whereas the sibling {meter_fn.name}() backs a meter only by successors that are ALL of one kind "
+              f"({sorted(set(applied))}) and the component graph defines the meter of a kind ({', '.join(sorted(table))}) the same way: "
+              "the two decisions no longer describe the same (device kind, meter kind) relation.  A meter M in front of a PV "
+              "inverter and a battery inverter becomes the `primary` of the PV term (fallback: the PV inverter) and of the battery "
+              "term: while M is valid the term reads PV + battery, while M is missing it reads the inverter -- primary and "
+              "fallback do not measure the same quantity, so the output is wrong exactly while the primary is valid, also after "
+              "it `recovers` (a meter is a primary for a device kind only if it is dedicated to that kind; testing the category "
+              "alone, a `chain` predicate, or `not is_grid_meter` are the same slip)",
+              node=ret, file=pair_fn.file, instance=f"{pair_fn.qual}: only a dedicated meter is a primary")
     dev = {d for d, _m, _n in pairs}
     got = set(applied)
     extra, missing = sorted(got - dev), sorted(dev - got)
@@ -1381,6 +1554,13 @@ def build_controls(prog: Program) -> list[tuple[str, str, str, str, str]]:
             add("healthy primary skips the fallback read", STEPS, stmt_patch(
                 fw, a, lambda t, ptxt=ptxt: f"{indent_of(t)}if {ptxt}.value is not None and not {ptxt}.value.isnan() and not {ptxt}.value.isinf():\n"
                                             f"{indent_of(t)}    return {ptxt}\n" + t), "C19.TICK")
+            # SEL: the fallback's value handed on under the primary's timestamp
+            tgt_ = a.targets[0] if isinstance(a, ast.Assign) else a.target
+            rets_ = [r for r in ast.walk(fw.node) if isinstance(r, ast.Return) and isinstance(r.value, ast.Name)
+                     and isinstance(tgt_, ast.Name) and r.value.id == tgt_.id]
+            if rets_:
+                add("fallback value re-labelled with the primary's timestamp", STEPS, stmt_patch(
+                    fw, rets_[-1], lambda t, ptxt=ptxt, f_=rets_[-1].value.id: f"{indent_of(t)}return Sample({ptxt}.timestamp, {f_}.value)\n"), "C19.SEL")
         break
     done: set[str] = set()
     for fn in unit_methods:
@@ -1406,6 +1586,18 @@ def build_controls(prog: Program) -> list[tuple[str, str, str, str, str]]:
                 add("catch-up advances the primary", STEPS, stmt_patch(
                     sy, a, lambda t, prim=prim: f"{indent_of(t)}{prim} = await self._stream.receive()\n"), "C19.SYNC")
                 break
+            break
+        # SYNC: the first use waits for a VALID fallback sample (a second loop around the read, governed by the value)
+        fbp_ = sy.params[2] if len(sy.params) > 2 else None
+        for a in (x for x in ast.walk(sy.node) if isinstance(x, ast.Assign) and isinstance(x.value, ast.Await)
+                  and isinstance(x.value.value, ast.Call) and method_call(x.value.value, None, "receive")
+                  and fbp_ is not None and u(x.value.value.func.value) == fbp_):  # type: ignore[union-attr]
+            if any(a is y for w in ast.walk(sy.node) if isinstance(w, ast.While) for y in ast.walk(w)):
+                continue
+            ttxt = seg(sy.module, a.targets[0])
+            add("first use waits for a valid fallback sample", STEPS, stmt_patch(
+                sy, a, lambda t, ttxt=ttxt, vn=(vname or VALID_HINT): t + f"{indent_of(t)}while not self.{vn}({ttxt}.value):\n    " + t.lstrip("\n")
+                if t.endswith("\n") else t), "C19.SYNC")
             break
         for s_ in ast.walk(sy.node):
             if isinstance(s_, ast.If) and "timestamp" in u(s_.test) and "None" not in u(s_.test) and len(s_.body) == 1 \
@@ -1498,10 +1690,15 @@ def build_controls(prog: Program) -> list[tuple[str, str, str, str, str]]:
                 add("meter fallback selected by a meter predicate", mf.module.name, stmt_patch(
                     mf, node, lambda t, d=d, m=m: t.replace(f".{d}", f".{m}", 1)), "C19.PAIR")
                 break
+        # PAIR: one device kind accepts any meter as its primary (the category is tested instead of the dedicated-meter predicate)
+        for c in find_calls(_pf.node, lambda c: isinstance(c.func, ast.Attribute) and c.func.attr in table and len(c.args) == 1 and not c.keywords)[:1]:
+            txt, arg = seg(_pf.module, c), seg(_pf.module, c.args[0])
+            add("any meter is the primary of a device kind", _pf.module.name, stmt_patch(
+                _pf, c, lambda t, txt=txt, arg=arg: t.replace(txt, f"({arg}.category == ComponentCategory.METER)", 1)), "C19.PAIR")
     except AnalysisError:
         pass
     if len(out) < 4:
-        raise AnalysisError(f"C19: only {len(out)} of 16 seeded controls could be derived from the source "
+        raise AnalysisError(f"C19: only {len(out)} of 19 seeded controls could be derived from the source "
                             f"({[o[0] for o in out]})")
     return out
 
@@ -1522,20 +1719,23 @@ def run_rules(run: Run, prog: Program) -> None:
 
 def check(run: Run, prog: Program, tier: str) -> str:
     run.rule("C19.SEL", "primary iff valid or no synchronised fallback sample; fallback iff invalid and present; "
-             "fallback's next sample on primary error; primary received exactly once")
+             "fallback's next sample on primary error; primary received exactly once; the sample handed on is one of the "
+             "received samples whole, never one's timestamp on the other's value")
     run.rule("C19.TICK", "once the fallback runs, every tick reads it (synchronisation call or, on a primary error, its receive): "
              "the error path relies on the receiver having been drained in lock-step")
     run.rule("C19.KEEP", "the primary stream and the fallback fetcher are bound once (in __init__): no path re-binds them")
     run.rule("C19.ERR", "every receive() is guarded by a catchable ReceiverError handler (two documented terminal sites)")
     run.rule("C19.LAZY", "fallback started only when not running and the primary is invalid (shared predicate) or failed")
-    run.rule("C19.SYNC", "fallback samples are never lost; older-test on every call; catch-up loop only advances the fallback")
+    run.rule("C19.SYNC", "fallback samples are never lost; older-test on every call; catch-up loop only advances the fallback; "
+             "the fallback is read repeatedly only by the catch-up loop (timestamps only, never waiting for a valid value)")
     run.rule("C19.ESYNC", "a fallback sample is handed to a round only after its timestamp was related to the round (synchronisation "
              "routine, or a read of the synchronisation state / a timestamp comparison on the path)")
     run.rule("C19.BUF", "fallback receiver has the default capacity")
     run.rule("C19.METRIC", "the generator wrapped as a term's fallback builds its formula over the same metric id and quantity "
              "constructor as the formula whose term it backs")
     run.rule("C19.PAIR", "which components back which meter: the selection of a meter's fallback components and the (device, meter) "
-             "pair table name the same device kinds, and each pair is the component graph's own definition of that meter kind")
+             "pair table name the same device kinds, each pair is the component graph's own definition of that meter kind, and "
+             "a meter that is not dedicated to one kind (or the grid meter) is nobody's primary")
     run.rule("C19.LOOP", "the loop that drives a formula survives every failing round: whatever Exception evaluator.apply() raises "
              "is caught (Exception / BaseException / bare) and followed by the next evaluation")
     run.rule("C19.RESYNC", "the consumer's re-alignment, on which the unsynchronised fallback sample of the primary-error path relies, "
